@@ -104,6 +104,7 @@ func TestCheck(t *testing.T) {
 		kind := kind
 		r.Case("reverse-idle/"+kind, func(c *h.Case) { reverseIdle(c, kind) })
 		r.Case("reverse-stray-results/"+kind, func(c *h.Case) { reverseStray(c, kind) })
+		r.Case("reverse-first-calls-at-once/"+kind, func(c *h.Case) { reverseFirstCalls(c, kind) })
 	}
 	for _, kind := range []string{"tcp", "unix", "ws", "udp"} {
 		kind := kind
@@ -843,6 +844,83 @@ func timeoutRace(c *h.Case, kind string) {
 	r.Stat("timeout_race_timeouts:"+kind, timeouts)
 	r.Stat("timeout_race_answered:"+kind, answered)
 	r.Distinct("timeout-race|" + kind)
+}
+
+// reverseFirstCalls: the very first reverse calls to a provider id are issued by several callers
+// at the same instant (released by a barrier), for many fresh ids: whatever is set up on first
+// use must not be set up twice with one copy thrown away.
+func reverseFirstCalls(c *h.Case, kind string) {
+	r := c.R
+	svc := core.NewService()
+	caller := reverse.NewCaller(svc)
+	caller.HeartBeat = 0
+	caller.Timeout = 4 * time.Second
+	srv, err := peer.Start(kind, svc)
+	if err != nil {
+		r.Inconclusive(err.Error())
+		return
+	}
+	defer srv.Close()
+	ids := r.Pick(60, 400)
+	if light {
+		ids = 25
+	}
+	var provs []*reverse.Provider
+	defer func() {
+		for _, p := range provs {
+			closeProvider(p)
+		}
+	}()
+	bad := 0
+	for n := 0; n < ids && bad < 3; n++ {
+		pid := fmt.Sprintf("fresh-%d", n)
+		client := srv.NewClient()
+		client.Timeout = 10 * time.Minute
+		prov := reverse.NewProvider(client, pid)
+		prov.RetryInterval = 10 * time.Millisecond
+		prov.AddFunction(func(id string) string { return pid + " did " + id }, "work")
+		go prov.Listen()
+		provs = append(provs, prov)
+		for i := 0; i < 500 && !caller.Exists(pid); i++ {
+			time.Sleep(2 * time.Millisecond)
+		}
+		const k = 8
+		var ready, wg sync.WaitGroup
+		gate := make(chan struct{})
+		errs := make([]error, k)
+		outs := make([]string, k)
+		for g := 0; g < k; g++ {
+			ready.Add(1)
+			wg.Add(1)
+			go func(g int) {
+				defer wg.Done()
+				var proxy struct {
+					Work func(id string) (string, error) `name:"work"`
+				}
+				caller.UseService(&proxy, pid)
+				ready.Done()
+				<-gate
+				outs[g], errs[g] = proxy.Work(fmt.Sprintf("first-%d", g))
+			}(g)
+		}
+		ready.Wait()
+		close(gate)
+		wg.Wait()
+		for g := 0; g < k; g++ {
+			r.Eval(1)
+			if errs[g] != nil {
+				bad++
+				c.Violation("reverse-call-failed:"+kind+":first-calls-at-once", fmt.Sprintf("provider id %s: 8 callers issued their (first ever) calls at once, caller %d got %v", pid, g, errs[g]), map[string]interface{}{"kind": kind, "provider": pid})
+				break
+			}
+			if outs[g] != fmt.Sprintf("%s did first-%d", pid, g) {
+				bad++
+				c.Violation("response-of-another-call:reverse:"+kind, fmt.Sprintf("caller %d asked %s for first-%d and got %q", g, pid, g, outs[g]), nil)
+				break
+			}
+		}
+	}
+	r.Distinct("reverse-first-calls|" + kind)
 }
 
 var _ = sort.Ints
